@@ -101,9 +101,30 @@ def _listing_sources(prog, chk, V6):
     for f in prog.functions.values():
         if f.body is None or f.kind != 'CXXConstructorDecl' or 'schema_validate_utils' not in (f.file or ''):
             continue
-        for st in _sites.find_sites(f):
+        own = [(st.text, st) for st in _sites.find_sites(f)]
+        # a statement moved into a member helper the constructor calls: read it with the constructor's
+        # arguments put in place of the helper's parameters
+        from .. import callgraph as _cgm
+        env_f = _sites._string_locals(f)
+        for e in _cgm.get(prog).edges(f):
+            for g in e.targets:
+                if g.body is None or g.key == f.key or 'schema_validate_utils' not in (g.file or ''):
+                    continue
+                gs = _sites.find_sites(g)
+                if not gs:
+                    continue
+                args = children(e.node)[1:]
+                rendered = {}
+                for p_, a in zip(g.params, args):
+                    parts = _sites._merge(_sites.sql_parts(a, env_f))
+                    rendered[p_.get('name')] = ''.join(x if isinstance(x, str) else '${%s}' % x.desc for x in parts)
+                for st in gs:
+                    txt_ = st.text
+                    for pn_, val in rendered.items():
+                        txt_ = txt_.replace('${%s}' % pn_, val)
+                    own.append((txt_, st))
+        for txt, st in own:
             n += 1
-            txt = st.text
             pn = [p.get('name') for p in f.params]
             holes = re.findall(r'\$\{(\w+)\}', txt)
             has_db = len(f.params) == 3
@@ -329,16 +350,27 @@ def _helpers(prog, chk, V4):
         end_id = f.params[1]['id']
         # collect guards: if (cond) throw T
         guards = []
+        early = []          # conditions of `if (c) return;` statements met so far
         for n in children(f.body):
             if n.get('kind') != 'IfStmt':
+                top = strip(n)
+                if top.get('kind') == 'CXXThrowExpr' and len(early) == 1:
+                    # `if (c) return; throw T;` is `if (!c) throw T;`
+                    guards.append((_negated(early[0]), top, n))
                 continue
             c = children(n)
             cond = strip(c[0])
+            while cond.get('kind') == 'UnaryOperator' and cond.get('opcode') == '!' and \
+                    strip(children(cond)[0]).get('kind') == 'UnaryOperator' and strip(children(cond)[0]).get('opcode') == '!':
+                cond = strip(children(strip(children(cond)[0]))[0])
             then = strip(c[1])
             thr = None
             for x in walk(then):
                 if x.get('kind') == 'CXXThrowExpr':
                     thr = x
+            if thr is None and not n.get('hasElse') and any(x.get('kind') == 'ReturnStmt' for x in walk(then)):
+                early.append(cond)
+                continue
             guards.append((cond, thr, n))
         short = f.name + '(' + lt + (', db_name' if any(p.get('name') == 'db_name' for p in f.params) else '') + ')'
         if f.name == 'validate_no_more':
@@ -397,6 +429,33 @@ def _is_iter_deref(n, it_id):
         if x.get('kind') == 'DeclRefExpr' and (x.get('referencedDecl') or {}).get('id') == it_id:
             return True
     return False
+
+
+def _negated(cond):
+    """A condition node standing for !cond: comparisons are flipped, anything else is wrapped."""
+    flip = {'==': '!=', '!=': '=='}
+    c = strip(cond)
+    if c.get('kind') == 'UnaryOperator' and c.get('opcode') == '!':
+        return strip(children(c)[0])
+    if c.get('kind') == 'BinaryOperator' and c.get('opcode') in flip:
+        d = dict(c)
+        d['opcode'] = flip[c['opcode']]
+        return d
+    if c.get('kind') == 'CXXOperatorCallExpr':
+        cc = children(c)
+        ref = strip(cc[0]).get('referencedDecl') or {}
+        nm = ref.get('name') or ''
+        if nm in ('operator==', 'operator!='):
+            # rebuild the callee reference with the opposite operator name
+            import copy
+            d = copy.deepcopy(c)
+            for x in walk(d):
+                r = x.get('referencedDecl')
+                if r and r.get('name') == nm:
+                    r['name'] = 'operator!=' if nm == 'operator==' else 'operator=='
+                    break
+            return d
+    return {'kind': 'UnaryOperator', 'opcode': '!', 'inner': [c]}
 
 
 def _is_iter_cmp(cond, it_id, end_id):
